@@ -1,0 +1,38 @@
+//go:build verif
+
+package lastgersync
+
+import (
+	"context"
+	"database/sql"
+
+	"github.com/agglayer/aggkit/sync"
+)
+
+// This file is only compiled with the `verif` build tag. It adds entry points used by the
+// runtime-verification harness (/verif) and does not change any existing behaviour.
+
+// VerifNew builds a LastGERSync facade around a real processor (real SQLite store),
+// without downloader and driver.
+func VerifNew(dbPath string) (*LastGERSync, error) {
+	p, err := newProcessor(dbPath)
+	if err != nil {
+		return nil, err
+	}
+	return &LastGERSync{processor: p}, nil
+}
+
+// VerifProcessBlock calls the real processor.ProcessBlock
+func (s *LastGERSync) VerifProcessBlock(ctx context.Context, block sync.Block) error {
+	return s.processor.ProcessBlock(ctx, block)
+}
+
+// VerifReorg calls the real processor.Reorg
+func (s *LastGERSync) VerifReorg(ctx context.Context, firstReorgedBlock uint64) error {
+	return s.processor.Reorg(ctx, firstReorgedBlock)
+}
+
+// VerifDB returns the database handle of the processor
+func (s *LastGERSync) VerifDB() *sql.DB {
+	return s.processor.database
+}
